@@ -145,3 +145,17 @@ package locking
 //@   props C18
 //@   modifies heap
 //@   ensures result1 == nil ==> result0 != nil
+
+// C16: looking a path (or id) up among the cached own locks examines every
+// cached lock until the limit of *matches* is reached: the list that is walked
+// is the cache's whole list, a lock that matches the filter is taken, one that
+// does not is skipped - the limit never cuts the list before it is filtered.
+//@ func (*Client).searchLocalLocks
+//@   props C16
+//@   requires @inv c != nil && c.cache != nil
+//@   at loop 1 entry assert cachedlocks == lastcachelocks()
+//@   loop 1 iter (has(filter, "path") && filter["path"] != l.Path) || (has(filter, "id") && filter["id"] != l.Id) ==> len(locks) == iter(len(locks))
+//@   loop 1 iter !((has(filter, "path") && filter["path"] != l.Path) || (has(filter, "id") && filter["id"] != l.Id)) ==> len(locks) == iter(len(locks)) + 1 && locks[iter(len(locks))].Path == l.Path && locks[iter(len(locks))].Id == l.Id
+//@ iface (LockCacher).Locks
+//@   modifies fresh, ghost lastcachelocks
+//@   ensures result == lastcachelocks()
